@@ -83,8 +83,8 @@ partial def decStmt (j : Json) : Except String Stmt := do
   | "for" => pure (.loop (← jstr j "x") (← decExpr (← j.getObjVal? "c")) (← body "body"))
   | "if" =>
     let els ← match j.getObjVal? "else" with
-      | .ok (.arr a) => do pure (some (← a.toList.mapM decStmt))
-      | _ => pure none
+      | .ok (.arr a) => a.toList.mapM decStmt
+      | _ => pure []
     pure (.ite (← decExpr (← j.getObjVal? "c")) (← body "then") els)
   | "decl" =>
     let init ← match j.getObjVal? "init" with
@@ -182,7 +182,6 @@ partial def showVal (typed : Bool) : Val Float → String
   | .obj ty _ => s!"<object {ty}>"
   | .vec l => "[" ++ ", ".intercalate (l.map (showVal typed)) ++ "]"
   | .null => "null"
-  | .undef => "undef"
 
 def faultClass : Fault → String
   | .unbound n => s!"stuck:unbound:{n}"
